@@ -124,7 +124,7 @@ class LemmaOb:
         self.name, self.hyps, self.goal, self.decls, self.meta = name, hyps, goal, decls, meta
 
     def smt(self, getvals=()):
-        if self.meta.get("expect") == "sat":
+        if self.meta.get("expect") in ("sat", "nonunsat"):
             text = tm.query(self.decls, self.hyps + [self.goal], None, getvals=getvals)
         else:
             text = tm.query(self.decls, self.hyps, self.goal, getvals=getvals)
@@ -234,14 +234,17 @@ def run_property(pid: str, tier: str, seed: int) -> int:
                 continue
             seen_paths.add(pth)
             group.append(f"cover:{o.name}")
-            covers.append((f"cover:{o.name}", tm.query(o.decls, o.hyps, None)))
+            ctext = tm.query(o.decls, o.hyps, None)
+            if o.meta.get("abstract_strings"):
+                ctext = engine.abstract_strings(ctext)
+            covers.append((f"cover:{o.name}", ctext))
             if len(group) >= 6:
                 break
         if group:
             cover_groups[rep.con.name] = group
     queries = [(o.name, o.smt(), o.meta.get("solvers"), o.meta.get("timeout")) for o in obligations + lemma_obs]
     t_solve = time.time()
-    results = solve.run_many(queries + [(n, q, None, None) for n, q in covers], timeout=timeout)
+    results = solve.run_many(queries + [(n, q, None, 5) for n, q in covers], timeout=timeout)
     t_solve = time.time() - t_solve
     by_backend = {}
     discharged = 0
@@ -253,7 +256,7 @@ def run_property(pid: str, tier: str, seed: int) -> int:
         if r.verdict == "conflict" or r.verdict == "error":
             print(f"CHECKER-ERROR: solver error on {o.name}: {r.output[:300]}")
             return 3
-        if r.verdict == expect:
+        if r.verdict == expect or (expect == "nonunsat" and r.verdict in ("sat", "unknown")):
             discharged += 1
             b = by_backend.setdefault(r.solver, dict(count=0, seconds=0.0))
             b["count"] += 1
@@ -305,6 +308,10 @@ def run_property(pid: str, tier: str, seed: int) -> int:
                 traceback.print_exc()
                 print(f"CHECKER-ERROR: bounded stand-in {b['name']} crashed: {e!r}")
                 return 3
+            if res.get("checker_failures"):
+                print(f"CHECKER-ERROR: an assumed contract is contradicted by the real library in {b['name']}: "
+                      f"{json.dumps(res['checker_failures'][:3], default=str)}")
+                return 3
             bounded_out.append(dict(name=b["name"], bound=b["bound"], evaluations=res["evaluations"],
                                     failures=len(res["failures"]), note=res.get("note", "")))
             for f in res["failures"]:
@@ -340,7 +347,7 @@ def run_property(pid: str, tier: str, seed: int) -> int:
         if o is not None:
             replay["solver_output"] = o.result.output[:4000] if o.result else ""
             replay["smt_query"] = o.smt()[:200000]
-            if verdict == "sat":
+            if verdict in ("sat", "unknown"):
                 rp = None
                 for pref, fn in REPLAYERS.items():
                     if name.startswith(pref):
